@@ -1,0 +1,59 @@
+//! Line-protocol probe exposing bin-crate internals to the verification harness.
+//! Only compiled with `--cfg mos_verif`; started as `mos verif-probe`.
+//! One JSON request per stdin line, one JSON reply per stdout line.
+use serde_json::{json, Value};
+use std::io::{BufRead, Write};
+use std::panic::{catch_unwind, AssertUnwindSafe};
+
+fn panic_msg(p: &Box<dyn std::any::Any + Send>) -> String {
+    if let Some(s) = p.downcast_ref::<&str>() {
+        s.to_string()
+    } else if let Some(s) = p.downcast_ref::<String>() {
+        s.clone()
+    } else {
+        "<non-string panic>".to_string()
+    }
+}
+
+fn cmd_edits(req: &Value) -> Value {
+    let old = req.get("old").and_then(|s| s.as_str()).unwrap_or("");
+    let new = req.get("new").and_then(|s| s.as_str()).unwrap_or("");
+    let (chunks, edits) = crate::lsp::verif_get_text_edits(old, new);
+    json!({
+        "chunks": chunks.iter().map(|(k, s)| json!([k.to_string(), s])).collect::<Vec<_>>(),
+        "edits": edits.iter().map(|e| json!({
+            "sl": e.range.start.line, "sc": e.range.start.character,
+            "el": e.range.end.line, "ec": e.range.end.character, "new": e.new_text})).collect::<Vec<_>>(),
+    })
+}
+
+pub fn run() {
+    std::panic::set_hook(Box::new(|_| {}));
+    let stdin = std::io::stdin();
+    let stdout = std::io::stdout();
+    for line in stdin.lock().lines() {
+        let line = match line {
+            Ok(l) => l,
+            Err(_) => break,
+        };
+        if line.trim().is_empty() {
+            continue;
+        }
+        let reply = match serde_json::from_str::<Value>(&line) {
+            Ok(req) => {
+                let cmd = req.get("cmd").and_then(|c| c.as_str()).unwrap_or("").to_string();
+                match catch_unwind(AssertUnwindSafe(|| match cmd.as_str() {
+                    "edits" => cmd_edits(&req),
+                    _ => json!({"bad_request": "unknown cmd"}),
+                })) {
+                    Ok(v) => v,
+                    Err(p) => json!({"panic": panic_msg(&p)}),
+                }
+            }
+            Err(e) => json!({"bad_request": e.to_string()}),
+        };
+        let mut o = stdout.lock();
+        writeln!(o, "{}", reply).unwrap();
+        o.flush().unwrap();
+    }
+}
